@@ -7,6 +7,7 @@ CONSTANTS
   FailAt <- Fail11
   DevMode = FALSE
   MaxVer = 2
+  Scratch = TRUE
   Bug = "putfirst"
 INIT Init
 NEXT Next
